@@ -10,7 +10,7 @@ Scraped from src/readers/journalreader.rs and src/data/journal.rs (comments stri
     ends the enumeration, the emergency bound of the enumeration loop, `mu as f64 / <div>`, the format!
     width/precision of the monotonic field and the blank placeholder;
   * in next_verbose / next_export: the emergency bound; in next_verbose the bytes trimmed from _SELINUX_CONTEXT;
-  * DT_USES_SOURCE_OVERRIDE.
+  * DT_USES_SOURCE_OVERRIDE; whether get_monotonic_usec calls call_sd_id128_get_boot before asking the journal.
 Anything of unexpected shape raises ScrapeError."""
 import os, re
 from common import *
@@ -163,6 +163,10 @@ def scrape():
             else:
                 raise ScrapeError("next_verbose: trimmed byte literal %r" % lit)
         trims.append(v)
+    gm = fn_body(src, "get_monotonic_usec")
+    if "call_sd_journal_get_monotonic_usec" not in gm:
+        raise ScrapeError("get_monotonic_usec: no call of call_sd_journal_get_monotonic_usec")
+    needs_host = "call_sd_id128_get_boot" in gm
     ne = fn_body(src, "next_export")
     emerg_export = int(one(r"while\s+emerg_stop_data_enumerate\s*<\s*(\d+)", ne, "next_export emergency bound"))
     if "KEY_MESSAGE_CSTR" not in fn_body(src, "next_cat") or not re.search(r"KEY_MESSAGE_CSTR\s*:\s*CString\s*=\s*CString::new\(KEY_MESSAGE\)", src):
@@ -182,7 +186,7 @@ def scrape():
             raise ScrapeError("constant %s not found" % k)
     return dict(consts=consts, dispatch=dispatch, order=order, slot_key=slot_key, need=need, emerg_short=emerg_short,
                 emerg_verbose=emerg_verbose, emerg_export=emerg_export, div=int(div.replace("_", "")), width=int(width), prec=int(prec),
-                blank=blank, selinux=selinux, trims=trims, override=override)
+                blank=blank, selinux=selinux, trims=trims, override=override, needs_host=needs_host)
 
 
 def generate():
@@ -231,6 +235,7 @@ def generate():
         ("cfg_mono_width", "%d%%nat" % t["width"]),
         ("cfg_mono_prec", "%d%%nat" % t["prec"]),
         ("cfg_mono_blank", "s2b " + coq_str(t["blank"])),
+        ("cfg_mono_needs_host", "true" if t["needs_host"] else "false"),
     ]
     L.append("Definition src_cfg : jcfg := {|\n%s\n|}." % ";\n".join("  %s := %s" % kv for kv in fields))
     L.append("")
